@@ -132,8 +132,9 @@ class XMLWriter(object):
         if text is None:
             return None
         text = _rec_xml_illegal.sub('', text)
+        # (a bare carriage return would be read back as a line feed)
         return text.replace("&", "&amp;")\
-            .replace("<", "&lt;").replace(">", "&gt;")
+            .replace("<", "&lt;").replace(">", "&gt;").replace("\r", "&#13;")
 
     def _escape_attr(self, text):
         if text is None:
